@@ -682,7 +682,27 @@ static int tight_md(Buf *d, int arr) {
     return 0;
 }
 static int nav_md(Buf *d, int arr) { int t = chance(35) ? tight_md(d, arr) : 0; return t ? t : (chance(80) ? 16 : 255); }
+/* an extra case (own case number, PRNG state put back afterwards so that the regular cases are what they were): a chain of
+   11..40 nested containers - deeper than the default depth of a BINSON_PARSER_DEF parser - extracted with get_raw or handed
+   to the writer whole by parser_to_writer (C11: "appends exactly those bytes", whatever the container holds) */
+static void deep_chain_case(long id) {
+    int levels = 11 + (int)rn(30); static uint8_t closers[64]; int nc = 0;
+    D.n = 0; fault_kind = F_NONE; fault_fired = 0; fault_cd = 0;
+    put(&D, 0x40); put_blob(&D, 0x14, (const uint8_t *)"a", 1);
+    for (int i = 0; i < levels; i++) {
+        if (chance(70)) { put(&D, 0x40); put_blob(&D, 0x14, (const uint8_t *)"a", 1); closers[nc++] = 0x41; }
+        else { put(&D, 0x42); closers[nc++] = 0x43; }
+    }
+    put_int(&D, 0x10, 7, 0);
+    while (nc > 0) put(&D, closers[--nc]);
+    put_blob(&D, 0x14, (const uint8_t *)"b", 1); put_int(&D, 0x10, 1, 0); put(&D, 0x41);
+    case_begin(id); new_parser(0, 60); init_doc(0, 0, &D);
+    emit("@0 W %zu", D.n + rn(8)); emit("@0 io"); emit("@0 n");
+    if (chance(70)) { emit("@0 p2w"); emit("@0 wc"); emit("@0 dump"); } else emit("@0 gr");
+    emit("@0 n"); emit("@0 gi"); emit("@0 lo");
+}
 static void gen_nav(long id, int all_getters) {
+    if (id % 251 == 17) { uint64_t keep = S; deep_chain_case(1000000000L + id); S = keep; }
     int arr = chance(25);
     cont_bias = 45; gen_doc(&D, arr, 0, 3 + (int)rn(16)); cont_bias = 35;
     if (chance(4)) gen_longname_doc(&D, arr);
